@@ -155,7 +155,7 @@ pub fn main(tier: Tier, replay: Option<serde_json::Value>) -> i32 {
     let replay_name: Option<String> = replay.as_ref().and_then(|r| r["case"]["name"].as_str().map(|s| s.to_string()));
     let kmax = tier.pick(9usize, 12usize);
     eprintln!("[C01] start {:.1}s", run.elapsed());
-    let full = crate::setup::pp(((1usize << (kmax + 1)) + 64).max((1usize << 13) + 64));
+    let full = crate::setup::pp(((1usize << (kmax + 1)) + 64).max((1usize << if tier == Tier::Thorough { 14 } else { 13 }) + 64));
 
     eprintln!("[C01] setup done at {:.1}s", run.elapsed());
     // ---- (a) size sweep -----------------------------------------------------
@@ -266,7 +266,7 @@ pub fn main(tier: Tier, replay: Option<serde_json::Value>) -> i32 {
     }
     run.bound("programs", json!(progs.len()));
     run.bound("alphabet", json!(alpha.iter().map(|o| o.name).collect::<Vec<_>>()));
-    let pp = crate::setup::truncate_pp(&full, (1usize << 13) + 7);
+    let pp = crate::setup::truncate_pp(&full, (1usize << if tier == Tier::Thorough { 14 } else { 13 }) + 7);
     let outs = crate::par::par_map(&progs, |p| {
         let prog = e1::program_prog(&alpha, p);
         let label: &[u8] = if p.ops.len() % 2 == 0 { b"" } else { b"e1-label9" };
@@ -274,7 +274,10 @@ pub fn main(tier: Tier, replay: Option<serde_json::Value>) -> i32 {
     });
     // ---- (c) the named circuits of C15 (selector values from the compressor's built-in
     // tables, PI patterns per selector tuple, unused witnesses, ...) on all three routes
-    let named = crate::c15::named_circuits();
+    let mut named = crate::c15::named_circuits();
+    if tier == Tier::Thorough {
+        named.push(crate::c15::big_description_circuit());
+    }
     let named: Vec<&crate::c15::Item> = named.iter().filter(|i| replay_name.as_ref().map_or(true, |n| &i.name == n)).collect();
     run.bound("named_circuits", json!(named.len()));
     let nouts = crate::par::par_map(&named, |it| e1::pipeline(&it.prog, &pp, b"c01-named", (true, true, true)).slim());
